@@ -324,8 +324,7 @@ func (k *Kernel) taskMain(t *Task, fn func()) {
 			}
 		}
 		k.logf("done t%d", t.ID)
-		t.setState(Done)
-		k.nDone++
+		k.finished(t)
 	}()
 	k.park(t)
 	if t.Group > 0 && t.Group < len(k.groupSync) {
@@ -496,6 +495,15 @@ func (k *Kernel) Step() bool {
 	}
 	k.release(t)
 	return true
+}
+
+// finished marks t done (a named function: the deferred closure that calls it
+// is instrumented by the race detector, a //go:norace function is not).
+//
+//go:norace
+func (k *Kernel) finished(t *Task) {
+	t.setState(Done)
+	k.nDone++
 }
 
 //go:norace
